@@ -36,14 +36,23 @@ Init == /\ reg = [r \in Reg |-> NoEnv]
         /\ hist = << >>
 
 (* smallest call id not used by any opaque value held in a register *)
+(* call ids mentioned by a digest term (an elided element still names the fresh values it hides) *)
+AtomIds(a) == IF a[1] \in {"salt", "sig", "sealed", "share"} THEN {a[2]} ELSE {}
+RECURSIVE TermIds(_)
+TermIds(d) ==
+  IF d[1] # "H" THEN {}
+  ELSE (IF d[2][1] = "cbor" THEN AtomIds(d[2][2]) \cup (IF d[2][2][1] = "sig" THEN TermIds(d[2][2][5]) ELSE {})
+        ELSE TermIds(d[2]))
+       \cup UNION {TermIds(x) : x \in d[3]}
 RECURSIVE CallIds(_)
 CallIds(e) ==
   CASE e[1] = "node" -> CallIds(e[2]) \cup UNION {CallIds(a) : a \in e[3]}
     [] e[1] = "assn" -> CallIds(e[2]) \cup CallIds(e[3])
     [] e[1] = "wrap" -> CallIds(e[2])
-    [] e[1] = "enc"  -> {e[4][1]} \cup CallIds(e[5])
-    [] e[1] = "comp" -> CallIds(e[3])
-    [] e[1] = "leaf" -> IF e[2][1] \in {"salt", "sig", "sealed", "share"} THEN {e[2][2]} ELSE {}
+    [] e[1] = "enc"  -> {e[4][1]} \cup CallIds(e[5]) \cup TermIds(e[2])
+    [] e[1] = "comp" -> CallIds(e[3]) \cup TermIds(e[2])
+    [] e[1] = "elided" -> TermIds(e[2])
+    [] e[1] = "leaf" -> AtomIds(e[2]) \cup (IF e[2][1] = "sig" THEN TermIds(e[2][5]) ELSE {})
     [] OTHER -> {}
 UsedIds == UNION {CallIds(reg[r]) : r \in Full}
 MaxDepth == Len(Phases)
@@ -206,11 +215,11 @@ SaltFam == AddSaltA \/ AddSaltLenA \/ AddSaltRangeA \/ AddAssertionSaltedA \/ Ad
 
 (* ---- signatures ---------------------------------------------------------------------*)
 Metas == {{}, {Assn(KV(KvNote), Str("n"))}}
-(* a second signature by a key that has signed already is left out: with a deterministic
-   scheme it is byte-identical to the first and the assertion is deduplicated *)
+(* Signatures by a deterministic scheme (Extensions!DetSigner) are a function of key and message:
+   signing again gives the same assertion, which add_assertion absorbs - also when the earlier one
+   is compressed, encrypted or elided.  Randomised schemes give a fresh signature each time. *)
 AddSignatureA == \E dst \in Reg, src \in Full, s \in Signers, meta \in Metas :
-              /\ ~HasSignatureFrom(reg[src], s)
-              /\ Call("add_signature", dst, <<src, s, meta>>, Ok(AddSignature(reg[src], s, FreshId, meta)))
+              Call("add_signature", dst, <<src, s, meta>>, Ok(AddSignature(reg[src], s, FreshId, meta)))
 SignA == \E dst \in Reg, src \in Full, s \in Signers :
               Call("sign", dst, <<src, s>>, Ok(Sign(reg[src], s, FreshId)))
 (* adversarial 'signed' assertions, assembled from parts by someone holding key s *)
